@@ -237,3 +237,12 @@ def missing_before_read(ctx):
     ctx.check(ok, R, 'order', ctx.where(fa, rs[0] if rs else None), found='raise at line %s, first read at line %s' % (
         rs[0].line if rs else None, reads[0].line if reads else None), expected='ValueError raised before the reader is built',
         reason='asking for a missing weight column must be an error, not an unbalanced (or partially read) result')
+
+
+_run_core = run
+
+
+def run(ctx):
+    _run_core(ctx)
+    from . import refs_misc
+    refs_misc.run_for(ctx, 'C12')
